@@ -281,7 +281,12 @@ func rulesWriters(c *Ctx, r *Report) {
 		for _, t := range terms {
 			nCalls++
 			findings, _ := e.analyze(f, t)
-			pos := c.pos(t.call.Pos())
+			pos := ""
+			if t.call != nil {
+				pos = c.pos(t.call.Pos())
+			} else if t.def != nil {
+				pos = c.pos(t.def.Pos())
+			}
 			if len(findings) == 0 {
 				r.holds("B1", fname(f), keys[t], pos, "the error of this call is returned on every path on which it may be non-nil")
 			} else {
